@@ -585,6 +585,17 @@ func (c check) relational(w *harness.W, k vaxis.Key, e enc, bs []binding) {
 	for _, b := range bs {
 		w.Count("matches_evaluated", 1)
 		res := k.Matches(b.key, vaxis.ModifierMask(b.mods))
+		// the binding's modifiers may be given as one mask or as a list
+		var list []vaxis.ModifierMask
+		for bit := 1; bit <= b.mods; bit <<= 1 {
+			if b.mods&bit != 0 {
+				list = append(list, vaxis.ModifierMask(bit))
+			}
+		}
+		if len(list) > 1 && k.Matches(b.key, list...) != res {
+			w.Violation("match:modifier-list-differs-from-mask", fmt.Sprintf("key %q against binding (%q,%d): Matches with the modifiers as separate arguments disagrees with Matches with one combined mask", e.Bytes, b.key, b.mods), keyCase{e, fmt.Sprintf("%#v", k)}, fmt.Sprint(!res), fmt.Sprint(res))
+			return
+		}
 		// (2) lock independence
 		for _, tog := range []int{mCaps, mNum} {
 			k2 := k
